@@ -280,6 +280,9 @@ func c10Emit(c *Ctx, p *c10Plan, r *c10Res, lim *c10Limits) {
 	if p.Job.HasWL {
 		in["whitelist"] = p.Job.WL
 	}
+	if p.Stream != nil && p.Stream.HdrSet {
+		in["headerHex"] = hex.EncodeToString(p.Stream.Hdr)
+	}
 	if p.Stream != nil && p.TruncAt < 0 && len(p.Stream.Msgs) <= 40 {
 		ms := make([]string, len(p.Stream.Msgs))
 		for i, m := range p.Stream.Msgs {
@@ -313,7 +316,7 @@ func c10Emit(c *Ctx, p *c10Plan, r *c10Res, lim *c10Limits) {
 // c10Coq renders the case for the model: containers' file sizes, the frames as generic field
 // lists, the file-system limits, and the observed class.
 func c10Coq(p *c10Plan, r *c10Res, lim *c10Limits) (group, term string) {
-	if p.Stream == nil || p.Tail == "-" {
+	if p.Stream == nil || p.Tail == "-" || p.NoModel {
 		return "", ""
 	}
 	msgs := p.Stream.Msgs
